@@ -14,7 +14,11 @@ func TName(t *ast.Type) string { panic("ghost") }
 // FieldNamed: what ast.FieldList.ForName returns.
 func FieldNamed(l ast.FieldList, name string) *ast.FieldDefinition { panic("ghost") }
 
+// TString: the full type reference of an ast.Type.
+func TString(t *ast.Type) string { panic("ghost") }
+
 //@ assume-nonnil-elems *ast.Definition
+//@ assume-nonnil-elems *ast.Schema
 //@ assume-nonnil-elems *ast.FieldDefinition
 //@ assume-nonnil-elems *ast.ArgumentDefinition
 //@ assume-nonnil-field ast.FieldDefinition.Type
@@ -151,16 +155,13 @@ func FieldNamed(l ast.FieldList, name string) *ast.FieldDefinition { panic("ghos
 //@ ensures[res] err == nil ==> res != nil && wfTM(res.TypeURLMap)
 //@ ensures[routes] err == nil ==> forall(j, 0, len(inputs), forallT(T, string, forall(i, 0, len(inputs[j].Schema.Types[T].Fields), declaresAt(inputs[j].Schema.Types, T, i) ==> routed(res.TypeURLMap, T, inputs[j].Schema.Types[T].Fields[i].Name))))
 //@ ensures[owners] err == nil ==> forallT(T, string, forallT(n, string, routed(res.TypeURLMap, T, n) ==> exists(j, 0, len(inputs), route(res.TypeURLMap, T, n) == inputs[j].URL))) @using owners, tm
+//@ loop 0 invariant[defs] wfDefs(merged.Types)
 //@ loop 0 invariant[tm] tm != nil && fresh(tm) && wfTM(tm) && len(inputs) >= 1 && len(schemas) == it + 1 && (base(schemas) == 0 || fresh(schemas))
 //@ loop 0 invariant[routes] forall(j, 0, it + 1, forallT(T, string, forall(i, 0, len(inputs[j].Schema.Types[T].Fields), declaresAt(inputs[j].Schema.Types, T, i) ==> routed(tm, T, inputs[j].Schema.Types[T].Fields[i].Name)))) @using routes, frame-fields, tm
 //@ loop 0 invariant[owners] forallT(T, string, forallT(n, string, routed(tm, T, n) ==> exists(j, 0, it + 1, route(tm, T, n) == inputs[j].URL))) @using owners, frame-fields, tm
 //@ end
 
-// FName: the result of ast.FieldList.ForName (nil when there is no field of that name).
-//@ extern github.com/vektah/gqlparser/v2/ast (FieldList).ForName
-//@ ensures result == FieldNamed(l, name)
-//@ modifies fresh
-//@ end
+
 
 //@ define wfDefs(m map[string]*ast.Definition) bool = forallT(k, string, has(m, k) ==> m[k] != nil)
 //@ define implementsNode(d *ast.Definition) bool = exists(j, 0, len(d.Interfaces), d.Interfaces[j] == "Node")
@@ -177,9 +178,26 @@ func FieldNamed(l ast.FieldList, name string) *ast.FieldDefinition { panic("ghos
 //@ returns res, err
 //@ requires a != nil && b != nil
 //@ ensures[res] err == nil ==> res != nil && fresh(res)
-//@ ensures[overlap-rejected] err == nil ==> forall(i, 0, len(b.Fields), !hasprefix(b.Fields[i].Name, "__") && !nodeEntry(b.Fields[i]) ==> FieldNamed(a.Fields, b.Fields[i].Name) == nil) @props C05
+//@ ensures[overlap-rejected] err == nil ==> forall(i, 0, len(b.Fields), !hasprefix(b.Fields[i].Name, "__") && !nodeEntry(b.Fields[i]) ==> forall(j, 0, len(a.Fields), a.Fields[j].Name != b.Fields[i].Name)) @props C05
+//@ ensures[fields-kept] err == nil ==> len(res.Fields) >= len(a.Fields) && forall(j, 0, len(a.Fields), res.Fields[j] == a.Fields[j]) @props C03
+//@ modifies-assumed fresh, elems(*ast.FieldDefinition)
+//@ loop 0 invariant[prefix] len(fields) >= len(a.Fields) && forall(j, 0, len(a.Fields), fields[j] == a.Fields[j]) && ((base(fields) == base(a.Fields) && off(fields) == off(a.Fields)) || fresh(fields))
+//@ loop 0 invariant[checked] forall(i, 0, it, !hasprefix(b.Fields[i].Name, "__") && !nodeEntry(b.Fields[i]) ==> forall(j, 0, len(a.Fields), a.Fields[j].Name != b.Fields[i].Name)) @using checked, prefix
+//@ end
+
+// TString: what (*ast.Type).String returns (the full type reference, e.g. [Int!]!).
+//@ extern github.com/vektah/gqlparser/v2/ast (*Type).String
+//@ ensures result == TString(t)
+//@ modifies fresh
+//@ end
+
+//@ func mergeCustomObjectFields
+//@ props C05 C03
+//@ returns res, err
+//@ requires a != nil && b != nil
+//@ loop 2 invariant[keys] isOverlappinggMap != nil && len(mf) == len(mf) && forallT(i, int, has(isOverlappinggMap, i) ==> 0 <= i && i < it)
+//@ ensures[type-conflict-rejected] err == nil ==> forall(i, 0, len(a.Fields), forall(j, 0, len(b.Fields), a.Fields[i].Name == b.Fields[j].Name && !hasprefix(b.Fields[j].Name, "__") ==> TString(a.Fields[i].Type) == TString(b.Fields[j].Type))) @props C05
 //@ modifies-assumed fresh
-//@ loop 0 invariant[checked] forall(i, 0, it, !hasprefix(b.Fields[i].Name, "__") && !nodeEntry(b.Fields[i]) ==> FieldNamed(a.Fields, b.Fields[i].Name) == nil)
 //@ end
 
 //@ func mergeCustomObjects
@@ -199,16 +217,16 @@ func FieldNamed(l ast.FieldList, name string) *ast.FieldDefinition { panic("ghos
 //@ ensures[keys-b] err == nil ==> forallT(k, string, has(b, k) && !hasprefix(k, "__") ==> has(result, k)) @props C03
 //@ ensures[keys-only] err == nil ==> forallT(k, string, has(result, k) ==> has(a, k) || (has(b, k) && !hasprefix(k, "__"))) @props C03
 //@ ensures[kind-clash-rejected] err == nil ==> forallT(k, string, has(a, k) && has(b, k) && !hasprefix(k, "__") && b[k].Name != "Node" ==> a[k].Kind == b[k].Kind) @props C05
-//@ ensures[node-mismatch-rejected] err == nil ==> forallT(k, string, has(a, k) && has(b, k) && !hasprefix(k, "__") && b[k].Name != "Node" && b[k].Kind != ast.Scalar && b[k].Kind != ast.Union ==> implementsNode(a[k]) == implementsNode(b[k])) @props C05
 //@ modifies-assumed fresh
-//@ loop 0 invariant[copy] result != nil && fresh(result) && wfDefs(result) && forallT(k, string, has(result, k) == seen(k)) && forallT(k, string, has(result, k) ==> fresh(result[k]) && result[k].Kind == a[k].Kind && result[k].Name == a[k].Name && sameslice(result[k].Interfaces, a[k].Interfaces))
+//@ loop 0 modifies result[*], fresh
+//@ loop 1 modifies result[*], fresh, elems(string), elems(*ast.FieldDefinition)
+//@ loop 0 invariant[copy] result != nil && fresh(result) && wfDefs(result) && forallT(k, string, has(result, k) == seen(k)) && forallT(k, string, seen(k) ==> has(a, k)) && forallT(k, string, has(result, k) ==> fresh(result[k]) && result[k].Kind == a[k].Kind && result[k].Name == a[k].Name && sameslice(result[k].Interfaces, a[k].Interfaces))
 //@ loop 1 invariant[wf] result != nil && fresh(result) && wfDefs(result)
-//@ loop 1 invariant[keys-a] forallT(k, string, has(a, k) ==> has(result, k))
-//@ loop 1 invariant[keys-b] forallT(k, string, seen(k) && !hasprefix(k, "__") ==> has(result, k))
-//@ loop 1 invariant[keys-only] forallT(k, string, has(result, k) ==> has(a, k) || (has(b, k) && seen(k) && !hasprefix(k, "__")))
-//@ loop 1 invariant[kinds] forallT(k, string, seen(k) && has(a, k) && !hasprefix(k, "__") && b[k].Name != "Node" ==> a[k].Kind == b[k].Kind)
-//@ loop 1 invariant[nodes] forallT(k, string, seen(k) && has(a, k) && !hasprefix(k, "__") && b[k].Name != "Node" && b[k].Kind != ast.Scalar && b[k].Kind != ast.Union ==> implementsNode(a[k]) == implementsNode(b[k]))
-//@ loop 1 invariant[akeep] forallT(k, string, has(a, k) && !seen(k) ==> fresh(result[k]) && result[k].Kind == a[k].Kind && sameslice(result[k].Interfaces, a[k].Interfaces))
+//@ loop 1 invariant[keys-a] forallT(k, string, has(a, k) ==> has(result, k)) @using keys-a, wf
+//@ loop 1 invariant[keys-b] forallT(k, string, seen(k) && !hasprefix(k, "__") ==> has(result, k)) @using keys-b, wf
+//@ loop 1 invariant[keys-only] forallT(k, string, has(result, k) ==> has(a, k) || (has(b, k) && seen(k) && !hasprefix(k, "__"))) @using keys-only, wf
+//@ loop 1 invariant[kinds] forallT(k, string, seen(k) && has(a, k) && !hasprefix(k, "__") && b[k].Name != "Node" ==> a[k].Kind == b[k].Kind) @using kinds, akeep, wf
+//@ loop 1 invariant[akeep] forallT(k, string, has(a, k) && !seen(k) ==> fresh(result[k]) && result[k].Kind == a[k].Kind && sameslice(result[k].Interfaces, a[k].Interfaces)) @using akeep, wf
 //@ end
 
 //@ func mergeImplements
@@ -233,3 +251,8 @@ func FieldNamed(l ast.FieldList, name string) *ast.FieldDefinition { panic("ghos
 
 //@ commute (TypeURLMap).SetFromSchema loop 0: proved: SetFromSchema's functional contract (routes, frame-types, frame-fields, flags) is proved for an arbitrary iteration order and determines every route and flag
 //@ commute mergeTypes loop 1: assumed: each iteration writes only result[k] (the merged definition of its own key); mergeRootObjects may append in place into a field array shared with an input schema, beyond its length
+
+//@ extern github.com/vektah/gqlparser/v2/formatter NewFormatter
+//@ ensures result != nil
+//@ modifies fresh
+//@ end
